@@ -139,6 +139,33 @@ Theorem zone_failure_request_local_not_published : forall ze be ce x,
 Proof. exact zone_failure_local_not_admitted. Qed.
 Print Assumptions zone_failure_request_local_not_published.
 
+(* A zone failure is published only when every server of the zone failed to
+   give a usable response (the fan-out model; tied by the lab driver). *)
+Theorem zone_failure_only_when_every_server_failed : forall servers,
+  zone_failure_published servers = true -> forall b, In b servers -> usable b = false.
+Proof. exact zone_failure_needs_every_server_to_fail. Qed.
+Print Assumptions zone_failure_only_when_every_server_failed.
+
+(* FULL STATEMENT: for every error class e that is load shedding
+   (shed_load e = true), the handler's SERVFAIL is never recorded:
+     forall e, shed_load e = true -> request_local (handler_failure e) = true.
+   REFUTED on the current code: errResolutionCapacity / errZoneCapacity are not in
+   IsRequestLocalResolutionError, the response is unmarked, the cache records it
+   (finding shed-load-recorded; reproduced by the lab driver: the next query for the
+   same question is answered SERVFAIL + EDE 13 without a packet to the healthy authority). *)
+Theorem shed_load_not_recorded_refuted :
+  exists e, shed_load e = true /\ cacheable_failure (handler_failure e) = true /\
+    forall H c k now, fst (fst (st_record_failure H c (mk_store [] false) k prov_response now)) <> mk_store [] false ->
+      serve_writeback H c (mk_store [] false) k (DFail (handler_failure e)) now <> mk_store [] false.
+Proof. exact shed_load_recorded_witness. Qed.
+Print Assumptions shed_load_not_recorded_refuted.
+
+(* what does hold: every class IsRequestLocalResolutionError lists is kept out *)
+Theorem marked_error_classes_not_recorded : forall H c s k e now,
+  is_request_local_error e = true -> serve_writeback H c s k (DFail (handler_failure e)) now = s.
+Proof. exact marked_errors_not_recorded. Qed.
+Print Assumptions marked_error_classes_not_recorded.
+
 (* Turning rfc9520 off stops both recording and serving. *)
 Theorem disabled_is_inert : forall H c s, s_disabled s = true ->
   (forall k p now, st_record_failure H c s k p now = (s, None, false)) /\
